@@ -42,6 +42,7 @@ type Run struct {
 	Extra      map[string]int // world specific counters (crash images, ops, ...)
 
 	viol *Violation
+	Live bool // print events as they happen (debugging)
 	// Quiet disables keeping event text (hash still computed) – used during minimisation.
 	Quiet bool
 }
@@ -70,6 +71,9 @@ func (r *Run) Seq() uint64 { r.seq++; return r.seq }
 func (r *Run) Event(actor string, format string, args ...any) {
 	s := fmt.Sprintf("%d %s ", r.Seq(), actor) + fmt.Sprintf(format, args...)
 	r.logHash = fold(r.logHash, s)
+	if r.Live {
+		fmt.Println("   ", s)
+	}
 	if !r.Quiet || len(r.events) < 200 {
 		r.events = append(r.events, s)
 	}
